@@ -63,37 +63,27 @@ impl Block {
     ///
     /// `new_line_positions` is used for locating a starting position of a line in the source code.
     fn content_intersects_with_any(&self, line_changes: &[LineChange]) -> bool {
-        line_changes
-            .binary_search_by(|line_change: &LineChange| {
-                if Self::intersects_with_line_change(&self.content_position_range, line_change) {
-                    Ordering::Equal
-                } else if line_change.line < self.content_position_range.start.line {
-                    Ordering::Less
-                } else {
-                    Ordering::Greater
-                }
-            })
-            .is_ok()
+        // `line_changes` are ordered by line only, so the search is keyed on the line alone and
+        // every change on the lines spanned by the content is checked.
+        let first =
+            line_changes.partition_point(|c| c.line < self.content_position_range.start.line);
+        line_changes[first..]
+            .iter()
+            .take_while(|c| c.line <= self.content_position_range.end.line)
+            .any(|c| Self::intersects_with_line_change(&self.content_position_range, c))
     }
 
     /// Whether the `Block`'s start tag intersects with any of the **ordered** `line_changes`.
     ///
     /// `new_line_positions` is used for locating a starting position of a line in the source code.
     fn start_tag_intersects_with_any(&self, line_changes: &[LineChange]) -> bool {
-        line_changes
-            .binary_search_by(|line_change: &LineChange| {
-                if Self::intersects_with_line_change_inclusive(
-                    &self.start_tag_position_range,
-                    line_change,
-                ) {
-                    Ordering::Equal
-                } else if line_change.line < self.start_tag_position_range.start().line {
-                    Ordering::Less
-                } else {
-                    Ordering::Greater
-                }
-            })
-            .is_ok()
+        // See `content_intersects_with_any`.
+        let first =
+            line_changes.partition_point(|c| c.line < self.start_tag_position_range.start().line);
+        line_changes[first..]
+            .iter()
+            .take_while(|c| c.line <= self.start_tag_position_range.end().line)
+            .any(|c| Self::intersects_with_line_change_inclusive(&self.start_tag_position_range, c))
     }
 
     /// Whether the `position_range` intersects with the given `line_change`.
